@@ -277,7 +277,7 @@ PROPS = {
         level="exploration",
         flavour="race",
         quick=dict(runs=1600, recheck=2),
-        thorough=dict(runs=60000, recheck=3),
+        thorough=dict(runs=24000, recheck=3),
         rule=("each run = one program (scalar counter, dimensioned counter with limit 4, gauge set to the line number, histogram by tag, text metric, "
               "a dimensioned counter whose label sets are deleted and expired) fed 10-49 lines by a feeder task while — drawn per run — the real GC "
               "ticker loop runs under the fake clock (the controller advances time in the middle of line processing), a reloader task performs 1-3 "
